@@ -12,9 +12,10 @@ META = dict(
     level="model_checking",
     level_text=("Design-level TLC check of writer/reader design pairs under a crash after every byte (the as-built pair must fail: "
                 "non-vacuity control). Binding: the real update's write programme is recorded with strace, EVERY crash point "
-                "(before every syscall and after every byte of every write) is materialised after 0..3 earlier successful "
-                "updates, the real GetCached() is executed on each, and the whole enumeration is validated as a trace against "
-                "the spec, which keeps its own image of the directory and evaluates ReadOK at every crash point."),
+                "(before every syscall incl. cleanup unlinks and after every byte of every write) is materialised for every cache size "
+                "(1, 2, 3, default; quick: 1 and 3) after 0..3 (quick 0..2) earlier successful updates, the real GetCached() is executed on each, and the whole enumeration is validated as a trace against "
+                "the spec, which keeps its own image of the directory and evaluates ReadOK (incl. Durable: nothing the cache held at the "
+                "start of the update is lost) at every crash point."),
     level_note="Trusted: strace's syscall record; crash = process stop (page cache survives; no power-loss reordering); projection = payload-prefix matching of written bytes.",
     technique="TLA+ crash model; exhaustive crash-point enumeration of the strace-recorded write programme replayed into real GetCached(); trace validated by TLC",
     fault_enumeration=True,
